@@ -13,14 +13,11 @@ use std::num::NonZero;
 use std::sync::Arc;
 
 pub const CL_DEFAULT: u64 = 1;
-pub const CL_CONFIG: u64 = 2;
 pub const CL_FRI: u64 = 4;
 pub const CL_SCHEMA_MD: u64 = 8;
 pub const CL_SUBMILLI: u64 = 16;
 pub fn class_name(c: u64) -> &'static str {
-    if c & CL_CONFIG != 0 {
-        "overwrite_config_upsert_dropped"
-    } else if c & CL_FRI != 0 {
+    if c & CL_FRI != 0 {
         "rewrite_frag_reuse_index_dropped"
     } else if c & CL_SCHEMA_MD != 0 {
         "txn_schema_metadata_dropped"
@@ -269,7 +266,8 @@ pub fn operation(r: &mut Rng, kind: u64, known: bool) -> Operation {
             Operation::Overwrite {
                 fragments: fragments(r, kk),
                 schema: schema(r, md),
-                config_upsert_values: if known { match r.below(3) { 0 => None, 1 => Some(nekvmap(r)), _ => Some(HashMap::new()) } } else { Some(HashMap::new()) },
+                // Some({}) is written like None (default_conflated); None and Some(non-empty) round trip (cb06601)
+                config_upsert_values: match r.below(3) { 0 => None, 1 if known => Some(HashMap::new()), _ => Some(nekvmap(r)) },
                 initial_bases: match r.below(3) { 0 => None, 1 if known => Some(vec![]), _ => Some((0..1 + r.below(2)).map(|_| base_path(r)).collect()) },
             }
         }
@@ -338,10 +336,7 @@ pub fn txn_classes(t: &Transaction) -> u64 {
         Operation::Append { fragments } => dflt |= anyf(fragments),
         Operation::Delete { updated_fragments, .. } => dflt |= anyf(updated_fragments),
         Operation::Overwrite { fragments, schema, config_upsert_values, initial_bases } => {
-            dflt |= anyf(fragments) || config_upsert_values.is_none() || initial_bases.as_ref().is_some_and(|b| b.is_empty());
-            if config_upsert_values.as_ref().is_some_and(|m| !m.is_empty()) {
-                c |= CL_CONFIG;
-            }
+            dflt |= anyf(fragments) || config_upsert_values.as_ref().is_some_and(|m| m.is_empty()) || initial_bases.as_ref().is_some_and(|b| b.is_empty());
             if !schema.metadata.is_empty() {
                 c |= CL_SCHEMA_MD;
             }
